@@ -385,6 +385,18 @@ func c17Strings(c *core.Ctx, ev *eval.Evaluator, tabs *Tables) {
 		inputs = append(inputs, string(acc[:n]), string(acc[len(acc)-n:]))
 	}
 	inputs = append(inputs, string(acc))
+	// every string of length 1..3 over A/C/G/T (all 64 codons: a codon is complemented base by base like any other
+	// string), the same in lower case, and codons with one ambiguity code
+	for _, alpha := range []string{"ACGT", "acgt"} {
+		for _, w := range allStrings(alpha, 3) {
+			if w != "" {
+				inputs = append(inputs, w)
+			}
+		}
+	}
+	for _, amb := range "RYKMSWBDHVN-" {
+		inputs = append(inputs, "A"+string(amb)+"C", string(amb)+"GT", "TC"+string(amb))
+	}
 	compOf := func(s string) string {
 		b := []byte(s)
 		for i := range b {
